@@ -108,15 +108,15 @@ def rsa_degenerate(tup):
     L = len(tup)
     if L >= 5:
         if tup[3] == 0 or tup[4] == 0:
-            return "factor=0"
+            return "zero-component"
         if tup[3] == 1 or tup[4] == 1:
             return "factor=1"
         if tup[3] < 0 or tup[4] < 0:
-            return "factor<0"
+            return "negative-component"
     if tup[0] == 0:
-        return "n=0"
+        return "zero-component"
     if tup[0] < 0:
-        return "n<0"
+        return "negative-component"
     return "other"
 
 
@@ -180,7 +180,7 @@ def check_rsa(tup, acc, via="construct", budget=CPU_BUDGET):
         acc.violation("C05/rsa/hang",
                       pre + ": the call does not return (more than %.2f s of CPU time; typical 50 us) - an input "
                       "violating the invariants must be refused with ValueError" % budget,
-                      case, script=script, size=tsize(tup))
+                      case, script=script, size=tsize(tup) + (100 if tup[0] < 15 else 0))
         return "hang"
     if st == "exc":
         if isinstance(val, ValueError):
@@ -428,7 +428,7 @@ def check_dsa(tup, acc, via="construct", budget=CPU_BUDGET):
         if isinstance(val, ValueError):
             return "ValueError"
         name = type(val).__name__
-        deg = "p=0" if p == 0 else "q=0" if q == 0 else "negative" if min(tup) < 0 else "other"
+        deg = "zero-component" if p == 0 or q == 0 else "negative-component" if min(tup) < 0 else "other"
         acc.violation("C05/dsa/%s/%s" % (name, deg),
                       pre + ": raised %s: %s at %s (the property demands ValueError)" % (name, val, exc_site(val)),
                       case, script=script, size=tsize(tup))
@@ -605,7 +605,7 @@ def check_elg(tup, acc, budget=CPU_BUDGET):
         if isinstance(val, ValueError):
             return "ValueError"
         name = type(val).__name__
-        deg = "p=0" if p == 0 else "negative" if min(tup) < 0 else "other"
+        deg = "zero-component" if p == 0 else "negative-component" if min(tup) < 0 else "other"
         acc.violation("C05/elgamal/%s/%s" % (name, deg),
                       pre + ": raised %s: %s at %s (the property demands ValueError)" % (name, val, exc_site(val)),
                       case, script=script, size=tsize(tup))
@@ -677,10 +677,23 @@ def elg_worker(shards):
 
 
 # ---------------------------------------------------------------------------
+def selftest_worker(names):
+    import importlib
+    acc = Acc()
+    for nm in names:
+        try:
+            importlib.import_module(nm).selftest()
+        except Exception as ex:  # noqa
+            acc.error("reference %s failed its selftest: %r" % (nm, ex))
+    return acc
+
+
 def run(ctx):
     import time
+    from . import _c05_ecpart as P
+    from . import _c05_gen as G
+    from . import _c05_flip as F
     q = ctx.quick
-    W = ctx.workers
     _pm = ctx.pmap
     phases = {}
 
@@ -691,22 +704,34 @@ def run(ctx):
         return r
     ctx.pmap = timed
     ctx.coverage_extra["phase_wall_s"] = phases
-    t0 = time.time()
-    for m in (nt, RR, RD, E, H, N):
-        try:
-            m.selftest()
-        except Exception as ex:  # noqa
-            ctx.acc.error("reference %s failed its selftest: %r" % (m.__name__, ex))
-            return
-    ctx.coverage_extra["selftest_s"] = round(time.time() - t0, 1)
+    ctx.pmap(selftest_worker, [[m.__name__] for m in (nt, RR, RD, E, H, N)])
+    if ctx.acc.errors:
+        return
     if not install_seams():
         ctx.acc.error("harness cannot reach seam Crypto.Math.Primality.Random / _IntegerBase.Random")
         return
+    from Crypto.PublicKey import RSA
+    if not hasattr(RSA, "generate_probable_prime"):
+        ctx.acc.error("harness cannot reach seam Crypto.PublicKey.RSA.generate_probable_prime")
+        return
     a = ctx.acc
 
+    # ---- generate() first: the longest single cases ----
+    gc = G.gen_cases(q)
+    gc.sort(key=lambda c: (0 if c["kind"] == "elg" else 1 if c.get("bits", 0) >= 2048 else 2))
+    ctx.pmap(G.gen_worker, [[c] for c in gc[:24]] + chunks(gc[24:], 48))
+    for kind, lo in (("rsa", 8), ("dsa", 4), ("elg", 2), ("ecc", 27)):
+        ctx.require(a.n.get("gen_%s_key" % kind, 0) >= lo, "generate(): fewer than %d %s keys were produced" % (lo, kind))
+    ctx.require(a.n.get("gen_refused", 0) >= 15, "generate(): illegal parameters / domains were not refused")
+    ctx.require(a.n.get("gen_rsa_injected", 0) >= 2, "generate(): the candidate q = p was never offered")
+    ctx.require(a.distinct.get("gen_dsa_x", set()) >= {"1", "q-1", "mid"}, "DSA.generate boundary tapes did not give x = 1 and x = q-1")
+    bd = a.distinct.get("gen_ecc_boundary", set())
+    ctx.require(all((cn, k) in bd for cn in H.WEIER for k in ("d=1", "d=n-1", "mid")),
+                "ECC.generate boundary tapes did not give d = 1 and d = n-1 on every Weierstrass curve")
+
     # ---- RSA ----
-    B = 20 if q else 40
-    BI = 10 if q else 20
+    B = 16 if q else 40
+    BI = 8 if q else 20
     sh = [[("pq", p, B)] for p in range(B, -1, -1)]
     ns = sorted({p * qq for p in range(B + 1) for qq in range(B + 1)})
     sh += [[("len3", c, B)] for c in chunks(ns, 48)]
@@ -716,21 +741,74 @@ def run(ctx):
     ctx.require(a.n.get("rsa_accept", 0) >= 100, "RSA: fewer than 100 tuples accepted")
     ctx.require(a.n.get("rsa_refuse", 0) >= 1000, "RSA: fewer than 1000 tuples refused")
     # ---- DSA ----
-    PB, QB = (32, 12) if q else (48, 12)
+    PB, QB = (24, 12) if q else (48, 12)
+    PI = 12 if q else 24
     sh = [[("p", p, QB)] for p in range(PB - 1, -1, -1)] + [[("neg",)], [("big", 1 if q else 2)]]
-    sh += [[("import", p, QB)] for p in range(0, 16 if q else 24)]
+    sh += [[("import", p, QB)] for p in range(PI - 1, -1, -1)]
     ctx.pmap(dsa_worker, sh)
     ctx.require(a.n.get("dsa_accept", 0) >= 100 and a.n.get("dsa_refuse", 0) >= 1000, "DSA: accept/refuse classes too small")
     # ---- ElGamal ----
     EB = 32 if q else 64
     ctx.pmap(elg_worker, [[("p", p)] for p in range(EB - 1, -1, -1)] + [[("misc",)]])
     ctx.require(a.n.get("elg_accept", 0) >= 100 and a.n.get("elg_refuse", 0) >= 1000, "ElGamal: accept/refuse classes too small")
+    # ---- EC ----
+    ctx.pmap(P.ec_worker, P.ec_shards())
+    ctx.require(a.n.get("ec_accept", 0) >= 500 and a.n.get("ec_refuse", 0) >= 5000, "EC: accept/refuse classes too small")
+    ents = a.distinct.get("ec_entries", set())
+    ctx.require(len(ents) >= 55, "EC: fewer than 55 (curve, entry point / format) combinations were exercised (%d)" % len(ents))
+    # ---- flips ----
+    ctx.pmap(F.flip_worker, F.flip_shards(q))
+    ctx.require(a.n.get("flip_accept", 0) >= 500 and a.n.get("flip_refuse", 0) >= 500, "flip: accept/refuse classes too small")
+    acc_fields = sorted(a.distinct.get("flip_accepting_fields", ()))
+    ign = [f for f in acc_fields if f[0].startswith("rsa/pkcs") and f[1] in ("dp", "dq", "qinv")]
+    if ign:
+        a.observe("RSA.import_key ignores the fields dP, dQ, qInv of a PKCS#1 / PKCS#8 private key: every flipped value is "
+                  "accepted and the returned key carries recomputed, consistent CRT values (returned key valid; observation)")
+    if [f for f in acc_fields if "rfc5915" in f[0] and f[1] in ("x", "y") or f[0].endswith("/pkcs8") and f[1] in ("x", "y")]:
+        a.observe("ECC.import_key ignores an undecodable embedded public point of an RFC 5915 / PKCS#8 private key "
+                  "(returned key has Q = d*G; observation, DESIGN section 5)")
 
+    nclasses = len(a.distinct.get("classes", ()))
+    ctx.require(nclasses >= 400, "fewer than 400 behaviour classes observed (%d)" % nclasses)
+    vc = {}
+    for (k, cn, grp) in a.distinct.get("ec_viol_curves", ()):
+        vc.setdefault(k, []).append("%s:%s" % (cn, grp))
     ctx.coverage_extra.update({
         "evaluations": a.n.get("evaluations", 0),
-        "distinct_nontrivial": len(a.distinct.get("classes", ())),
+        "distinct_nontrivial": nclasses,
         "exhaustive": not a.caps,
+        "grids": {
+            "rsa": "all (p,q) in [0,%d]^2 x e in [1,12] x d-variants (<=13) x u-variants (<=9) x n in {pq, pq+2} x tuple lengths "
+                   "2,3,5,6; negative and special (Carmichael / strong-pseudoprime / prime-square) factors; import (PKCS#1, PKCS#8, "
+                   "SPKI) on [0,%d]^2; 1024/1025-bit fixtures with 25 damaged variants" % (B, BI),
+            "dsa": "all (p,q,g) with p < %d, q < %d; (y,x) complete when the reference accepts the domain, boundary alphabet "
+                   "otherwise; 4- and 5-tuples; import (OpenSSL DER, PKCS#8, SPKI) for p < %d; 1024-bit fixture variants" % (PB, QB, PI),
+            "elgamal": "all (p,g) with p < %d; (y,x) complete for prime p, boundary alphabet otherwise" % EB,
+            "ec": "nine curves; coordinate alphabets %s (all pairs) through EccPoint, ECC.construct, SEC1, SPKI, OpenSSH, "
+                  "compressed forms, RFC 8032 / RFC 7748 raw encodings; scalar and seed alphabets; key files"
+                  % {cn: [len(x) for x in H.coord_alphabets(cn)] for cn in H.WEIER + H.EDW},
+            "generate": "%d cases (tapes: seeded streams, crafted boundary prefixes, candidate q = p)" % len(gc),
+            "flip": "%d encodings, %d single-bit flips" % (len(F.targets()), a.n.get("flip_cases", 0)),
+        },
+        "ec_entry_points_exercised": len(ents),
+        "ec_violation_curves": {k: sorted(v) for k, v in sorted(vc.items())},
+        "valid_inputs_refused": {k: a.n.get(k, 0) for k in ("rsa_valid_refused", "dsa_valid_refused", "elg_valid_refused", "ec_valid_refused")},
+        "flip_fields_with_accepted_flips": ["%s:%s" % f for f in acc_fields],
     })
+    ctx.assume("one-sided oracle: that every valid input is accepted is not demanded (counted in valid_inputs_refused)")
+    ctx.assume("small scope: RSA factors <= %d, DSA p < %d q < %d, ElGamal p < %d; at cryptographic sizes only the stored "
+               "fixtures with damaged components and the bit-flip closure are used" % (B, PB, QB, EB))
+    ctx.assume("primality of large factors is judged by 13 fixed Miller-Rabin bases plus a strong Lucas test (no known counterexample); "
+               "the library's own Miller-Rabin bases come from a deterministic stream keyed by the case")
+    ctx.assume("Montgomery curves: non-canonical u (>= p, bit 255) and u on the twist are accepted by design (RFC 7748) and are "
+               "logged as observations; only the listed low-order u and their aliases must be refused")
+    ctx.assume("non-canonical EdDSA public-key encodings whose decoded point is valid, the Edwards neutral element as a public key, "
+               "DSA public y outside the subgroup, RFC 5915 files with an undecodable public point, ignored PKCS#1 CRT fields: observations")
+    ctx.assume("OpenSSH private-key containers and PEM / encrypted wrappers are not crafted here (C13 covers the containers)")
+    ctx.assume("a call is declared hanging after %.2f s of process CPU time at small scale (typical call: 50 microseconds)" % CPU_BUDGET)
+    if q:
+        ctx.assume("quick tier: RSA square [0,16]^2, DSA p < 24, ElGamal p < 32, 2 seeded tapes per generator, flips of large "
+                   "fields only at bit positions 0-7, top 8 and multiples of 128, DSA flips for OpenSSL DER and SPKI only")
 
 
 def replay(case, acc):
@@ -744,5 +822,14 @@ def replay(case, acc):
         check_dsa(case["tup"], acc, case["via"], budget=30.0 if big else CPU_BUDGET)
     elif part == "elg":
         check_elg(case["tup"], acc)
+    elif part == "ec":
+        from . import _c05_ecpart as P
+        P.check_ec(case, acc)
+    elif part == "gen":
+        from . import _c05_gen as G
+        G.check_gen(case, acc)
+    elif part == "flip":
+        from . import _c05_flip as F
+        F.check_flip(case, acc)
     else:
         acc.error("unknown replay part %r" % part)
